@@ -1520,17 +1520,58 @@ func hasMonitors(db *database) bool {
 // We add this wrapper to allow users to access the API directly on the
 // client object
 
+// currentAPI returns the API over the current cache of the primary database.
+// It is nil until the first connection has fetched the schema and is replaced
+// (under the cache lock) when a connection is set up after a disconnect.
+func (o *ovsdbClient) currentAPI() API {
+	db := o.primaryDB()
+	db.cacheMutex.RLock()
+	defer db.cacheMutex.RUnlock()
+	return db.api
+}
+
+// unconnectedConditionalAPI is what the Where functions return on a client
+// that has never been connected: without a schema no condition can be built
+type unconnectedConditionalAPI struct{}
+
+func (unconnectedConditionalAPI) List(context.Context, interface{}) error {
+	return ErrNotConnected
+}
+
+func (unconnectedConditionalAPI) Mutate(model.Model, ...model.Mutation) ([]ovsdb.Operation, error) {
+	return nil, ErrNotConnected
+}
+
+func (unconnectedConditionalAPI) Update(model.Model, ...interface{}) ([]ovsdb.Operation, error) {
+	return nil, ErrNotConnected
+}
+
+func (unconnectedConditionalAPI) Delete() ([]ovsdb.Operation, error) {
+	return nil, ErrNotConnected
+}
+
+func (unconnectedConditionalAPI) Wait(ovsdb.WaitCondition, *int, model.Model, ...interface{}) ([]ovsdb.Operation, error) {
+	return nil, ErrNotConnected
+}
+
 // Get implements the API interface's Get function
 func (o *ovsdbClient) Get(ctx context.Context, model model.Model) error {
 	primaryDB := o.primaryDB()
 	waitForCacheConsistent(ctx, primaryDB, o.logger, o.primaryDBName)
 	defer primaryDB.cacheMutex.RUnlock()
+	if primaryDB.api == nil {
+		return ErrNotConnected
+	}
 	return primaryDB.api.Get(ctx, model)
 }
 
 // Create implements the API interface's Create function
 func (o *ovsdbClient) Create(models ...model.Model) ([]ovsdb.Operation, error) {
-	return o.primaryDB().api.Create(models...)
+	api := o.currentAPI()
+	if api == nil {
+		return nil, ErrNotConnected
+	}
+	return api.Create(models...)
 }
 
 // List implements the API interface's List function
@@ -1538,25 +1579,44 @@ func (o *ovsdbClient) List(ctx context.Context, result interface{}) error {
 	primaryDB := o.primaryDB()
 	waitForCacheConsistent(ctx, primaryDB, o.logger, o.primaryDBName)
 	defer primaryDB.cacheMutex.RUnlock()
+	if primaryDB.api == nil {
+		return ErrNotConnected
+	}
 	return primaryDB.api.List(ctx, result)
 }
 
 // Where implements the API interface's Where function
 func (o *ovsdbClient) Where(models ...model.Model) ConditionalAPI {
-	return o.primaryDB().api.Where(models...)
+	api := o.currentAPI()
+	if api == nil {
+		return unconnectedConditionalAPI{}
+	}
+	return api.Where(models...)
 }
 
 // WhereAny implements the API interface's WhereAny function
 func (o *ovsdbClient) WhereAny(m model.Model, conditions ...model.Condition) ConditionalAPI {
-	return o.primaryDB().api.WhereAny(m, conditions...)
+	api := o.currentAPI()
+	if api == nil {
+		return unconnectedConditionalAPI{}
+	}
+	return api.WhereAny(m, conditions...)
 }
 
 // WhereAll implements the API interface's WhereAll function
 func (o *ovsdbClient) WhereAll(m model.Model, conditions ...model.Condition) ConditionalAPI {
-	return o.primaryDB().api.WhereAll(m, conditions...)
+	api := o.currentAPI()
+	if api == nil {
+		return unconnectedConditionalAPI{}
+	}
+	return api.WhereAll(m, conditions...)
 }
 
 // WhereCache implements the API interface's WhereCache function
 func (o *ovsdbClient) WhereCache(predicate interface{}) ConditionalAPI {
-	return o.primaryDB().api.WhereCache(predicate)
+	api := o.currentAPI()
+	if api == nil {
+		return unconnectedConditionalAPI{}
+	}
+	return api.WhereCache(predicate)
 }
